@@ -56,7 +56,9 @@ def gen(tier, idx):
         op = ['dump', kv]
     elif ok == 'open': op = ['open', False]
     else: op = ['open', True]
-    return dict(kind=kind, codec=codec, opts=opts), prior, op
+    cfg = dict(kind=kind, codec=codec, opts=opts)
+    if kind == 'file' and prior and r.random() < 0.4: cfg['symlink'] = True       # the archive is reached through a symbolic link
+    return cfg, prior, op
 
 
 def loc_of(cfg, tmp):
